@@ -84,6 +84,24 @@ def make_derived(pool, typed):
 
 KEY_MAPS = {"default": True, "off": False, "custom": {"data_id": "i", "str": "s", "type": "t", "name": "n", "o": "x", "kind": "k"}}
 VALUE_MAPS = {"default": True, "off": False, "custom": {"type": ["int", "tuple", "Item", "EqObj", "str", "Plain"]}}
+_CUSTOM_MAPS = (json.dumps(KEY_MAPS["custom"]), json.dumps(VALUE_MAPS["custom"]))
+
+
+def custom_maps_dirty():
+    """what an earlier save() left in the application-owned custom maps (None if they are as the application made them)"""
+    if (json.dumps(KEY_MAPS["custom"]), json.dumps(VALUE_MAPS["custom"])) == _CUSTOM_MAPS:
+        return None
+    return dict(key_map=dict(KEY_MAPS["custom"]), value_map=dict(VALUE_MAPS["custom"]))
+
+
+def reset_custom_maps():
+    """restore the application-owned custom maps after a save() has written into them"""
+    KEY_MAPS["custom"].clear()
+    KEY_MAPS["custom"].update(json.loads(_CUSTOM_MAPS[0]))
+    VALUE_MAPS["custom"].clear()
+    VALUE_MAPS["custom"].update(json.loads(_CUSTOM_MAPS[1]))
+
+
 COMPRESSIONS = [False, True, zipfile.ZIP_STORED, zipfile.ZIP_DEFLATED, zipfile.ZIP_BZIP2, zipfile.ZIP_LZMA]
 
 
